@@ -18,7 +18,8 @@ use vcore::{Run, Violation, report::machinery, util};
 use vserver::cells::minimal_params;
 use vserver::model::token;
 use vserver::table::{self, Effect, Tables};
-use vserver::world::{ADMIN_KEY, Auth, COLLECTION, DB_A, DB_B, Enc, Resp, StoreTrace, World, rpc, runtime};
+use vserver::names::dbn;
+use vserver::world::{ADMIN_KEY, Auth, COLLECTION, Enc, Resp, StoreTrace, World, rpc, runtime};
 
 #[derive(Clone, Debug, PartialEq, Eq)]
 enum Life {
@@ -95,10 +96,10 @@ fn key_a() -> String {
 /// admin + A(key) + B(key), both seeded and flushed.
 async fn base() -> Result<World, String> {
     let mut w = World::boot(Some(ADMIN_KEY)).await?;
-    w.admin_rpc("/", "db.create", json!({"name": DB_A, "api_key": key_a()})).await?;
-    w.seed(DB_A).await?;
-    w.admin_rpc("/", "db.create", json!({"name": DB_B, "api_key": token(1, 1)})).await?;
-    w.seed(DB_B).await?;
+    w.admin_rpc("/", "db.create", json!({"name": dbn(0), "api_key": key_a()})).await?;
+    w.seed(dbn(0)).await?;
+    w.admin_rpc("/", "db.create", json!({"name": dbn(1), "api_key": token(1, 1)})).await?;
+    w.seed(dbn(1)).await?;
     Ok(w)
 }
 
@@ -123,7 +124,7 @@ fn workload(i: usize) -> Vec<(&'static str, Value)> {
 
 async fn run_workload(w: &mut World, i: usize, tolerate_errors: bool) -> Result<(), String> {
     for (method, params) in workload(i) {
-        match w.admin_rpc(&format!("/{DB_A}"), method, params).await {
+        match w.admin_rpc(&format!("/{}", dbn(0)), method, params).await {
             Ok(_) => {}
             Err(_) if tolerate_errors => {}
             Err(e) => return Err(e),
@@ -166,7 +167,7 @@ fn build_crashed(workload: usize, k: Option<u64>) -> Result<(Arc<CtlStore>, Arc<
 }
 
 async fn build(life: &Life, pre: Option<(Arc<CtlStore>, Arc<Ctl>)>) -> Result<World, String> {
-    let a = format!("/{DB_A}");
+    let a = format!("/{}", dbn(0));
     let c = COLLECTION;
     if let Life::Crashed { read_only, .. } = life {
         let (store, ctl) = pre.expect("crashed store");
@@ -182,13 +183,13 @@ async fn build(life: &Life, pre: Option<(Arc<CtlStore>, Arc<Ctl>)>) -> Result<Wo
         Life::WarmClean => {}
         Life::WarmUnflushed => run_workload(&mut w, 0, false).await?,
         Life::Reopened => {
-            w.admin_rpc("/", "db.close", json!({"name": DB_A})).await?;
-            w.admin_rpc("/", "db.open", json!({"name": DB_A})).await?;
+            w.admin_rpc("/", "db.close", json!({"name": dbn(0)})).await?;
+            w.admin_rpc("/", "db.open", json!({"name": dbn(0)})).await?;
         }
         Life::Reconnected => {
             run_workload(&mut w, 0, false).await?;
-            w.admin_rpc("/", "db.close", json!({"name": DB_A})).await?;
-            w.admin_rpc("/", "db.connect", json!({"name": DB_A})).await?;
+            w.admin_rpc("/", "db.close", json!({"name": dbn(0)})).await?;
+            w.admin_rpc("/", "db.connect", json!({"name": dbn(0)})).await?;
         }
         Life::Restarted => {
             run_workload(&mut w, 0, false).await?;
@@ -215,7 +216,7 @@ async fn build(life: &Life, pre: Option<(Arc<CtlStore>, Arc<Ctl>)>) -> Result<Wo
             w.admin_rpc(&a, "collection.set_read_only", json!({"collection": c, "read_only": true})).await?;
         }
         Life::Closed => {
-            w.admin_rpc("/", "db.close", json!({"name": DB_A})).await?;
+            w.admin_rpc("/", "db.close", json!({"name": dbn(0)})).await?;
         }
         Life::Crashed { .. } => unreachable!(),
     }
@@ -270,10 +271,10 @@ fn run_job(job: Job) -> Outcome {
             Err(e) => return (vec![], Some(e)),
         };
         let auth = if job.admin { Auth::Bearer(ADMIN_KEY.into()) } else { Auth::Bearer(key_a()) };
-        let path = if job.root_table { "/".to_string() } else { format!("/{DB_A}") };
+        let path = if job.root_table { "/".to_string() } else { format!("/{}", dbn(0)) };
         let req = rpc(&path, auth, job.enc, &job.method, Value::Null);
         // same body as the matrix uses (minimal params, with the decoy fields)
-        let params = minimal_params(&job.method, DB_B);
+        let params = minimal_params(&job.method, dbn(1));
         let req = if params.is_string() { req } else { rpc(&path, req.auth.clone(), job.enc, &job.method, params) };
         let mut sends = Vec::new();
         for which in ["first", "repeat"] {
